@@ -56,7 +56,10 @@ def prepare_tree(case):
     if case.get("warm") is not None and len(tree["files"]) % 2 == 1:
         # a backslash is an ordinary character of POSIX file names
         tree = {"files": dict(tree["files"], **{"we\\ird.cmake": 3}),
-                "dirs": dict(tree["dirs"], **{"mod\\ules": {"files": {"inner.cmake": 2}, "dirs": {}}})}
+                "dirs": dict(tree["dirs"], **{"mod\\ules": {"files": {"inner.cmake": 2}, "dirs": {}},
+                                              # glob metacharacters in directory names; a directory whose CMake files are dot-files
+                                              "lib[core]": {"files": {"core.cmake": 1}, "dirs": {"what?": {"files": {"q.cmake": 0}, "dirs": {}}}},
+                                              "a*b": {"files": {".hidden.cmake": 2}, "dirs": {}}})}
     if case["auto"]:
         tree = T.ensure_lowercase_cmake(tree)
         if not T.has_lower_cmake(tree):
